@@ -134,7 +134,7 @@ def _record(args):
 
 
 def record_and_validate(ctx, pid, modes, ntraces, *, procs=16):
-    jobs = [(ctx.seed * 1000003 + 17 * i + 1 + (i // len(modes)) % 4, modes[i % len(modes)]) for i in range(ntraces)]
+    jobs = [(ctx.seed * 1000003 + 17 * i + 1, modes[i % len(modes)]) for i in range(ntraces)]
     with mp.Pool(procs) as pool:
         recs = pool.map(_record, jobs, chunksize=8)
     traces, meta = [], []
@@ -291,13 +291,13 @@ def run(ctx):
     first = True
     # vacuity guard: every stage action and every transformation is taken (TLC -coverage on tiny
     # configurations: the coverage output of long runs is too large to parse)
-    for mode, extra, acts in (('single', dict(nobs=3), ['Average', 'Kernel', 'Build', 'SortAlpha', 'Single',
+    for mode, extra, acts in (('single', dict(nobs=2), ['Average', 'Kernel', 'Build', 'SortAlpha', 'Single',
                                                         'PermuteRows', 'PermuteChannels']),
                               ('list', dict(nobs=2, nobs2=2), ['ListBranch', 'PermuteRows']),
                               ('movie', dict(nobs=2, nt=2, binids=(0, 1)), ['Movie', 'PermuteRows'])):
         r = ctx.tlc('MC_CalcRdm', C.cfg(mode=mode, nch=2, nlab=2, datasrc='cat', dataids=(1,), methods=('euclidean', 'poisson'),
                                         usedescs=(True, False), permlevel=1, emit=False, **extra),
-                    name=f'cov_{mode}', workers=4, coverage=True, timeout=900)
+                    name=f'cov_{mode}', workers=1, coverage=True, timeout=900)
         ctx.require_coverage(r, acts)
     for name, kw, nfloat in runs:
         r = ctx.tlc('MC_CalcRdm', C.cfg(**kw), name=name, workers=W, timeout=1700)
